@@ -486,3 +486,13 @@ Fixpoint rx_dispatch (fuel : nat) (d : list Z) : res (list pdu) :=
   end.
 
 Definition receive (d : list Z) : res (list pdu) := rx_dispatch (S (length d)) d.
+
+(* ------------------------------------------------------------------ how the limits are learnt (pdu.py, llc.py, tco.py) *)
+(* Parameter.decode, T == MIUX: V = struct.unpack('>H'); if V & 0xF800: V = V & 0x07FF *)
+Definition miux_decode (V : Z) : Z := if negb (Z.land V 63488 =? 0) then Z.land V 2047 else V.
+(* ParameterExchange.miu = _miux + 128 (llc.activate: cfg['send-miu'] = rcvd_pax.miu);
+   Connect.decode / ConnectionComplete.decode: miu = 128 + V; absent TLV: 128 *)
+Definition learn_miu (v : option Z) : Z := match v with Some V => 128 + miux_decode V | None => 128 end.
+(* DataLinkConnection.accept / connect: send_miu = rcvd_pdu.miu, then llc.accept / llc.connect clamp it *)
+Definition learn_conn_miu (link_miu : Z) (v : option Z) (s : sock) : sock :=
+  llc_clamp_miu link_miu (with_smiu s (learn_miu v)).
